@@ -624,7 +624,27 @@ def translate(repo):
                 wr = wr + k.writes
                 inpl = k.inplace
                 ret = "" if not k.returns else (text(k.returns[0]) if len(k.returns) == 1 else "<several>")
-            methods.append((cname, m.name, ps, [text(d) for d in m.decorator_list], sorted(set(wr)), uniq(inpl), ret))
+            # private helpers called through self (walked or not): their writes count for the caller
+            called = [n.func.attr for n in ast.walk(m) if isinstance(n, ast.Call) and isinstance(n.func, ast.Attribute)
+                      and (is_self(n.func.value) or (isinstance(n.func.value, ast.Call) and isinstance(n.func.value.func, ast.Name) and n.func.value.func.id == "super"))]
+            methods.append([cname, m.name, ps, [text(d) for d in m.decorator_list], sorted(set(wr)), uniq(inpl), ret,
+                            (not m.name.startswith("_")) or m.name == "__init__", called])
+    # close `writes` under calls of methods of the walked classes through self / super() (fixed point)
+    changed = True
+    while changed:
+        changed = False
+        for r in methods:
+            for callee in r[8]:
+                d = w.find([r[0]], callee)
+                if d is None:
+                    continue
+                for r2 in methods:
+                    if r2[0] == d and r2[1] == callee:
+                        new = sorted(set(r[4]) | set(r2[4]))
+                        if new != r[4]:
+                            r[4] = new
+                            changed = True
+    methods = [tuple(r[:8]) for r in methods]
     ls = lambda xs: "[" + ", ".join(lean_str(x) for x in xs) + "]"  # noqa: E731
     lp = lambda xs: "[" + ", ".join(f"({lean_str(a)}, {lean_str(b)})" for a, b in xs) + "]"  # noqa: E731
     lb = lambda b: "true" if b else "false"  # noqa: E731
@@ -644,8 +664,8 @@ def translate(repo):
                           for (c, m, p, e, cd) in raises) + "]")
     out += ["", "def methods : List SMethod := ["]
     out.append(",\n".join(
-        f"  {{ cls := {lean_str(c)}, name := {lean_str(m)}, params := {ls(ps)}, decorators := {ls(ds)},\n    writes := {ls(wr)}, inplace := {ls(ip)}, ret := {lean_str(r)} }}"
-        for (c, m, ps, ds, wr, ip, r) in methods) + "]")
+        f"  {{ cls := {lean_str(c)}, name := {lean_str(m)}, params := {ls(ps)}, decorators := {ls(ds)},\n    writes := {ls(wr)}, inplace := {ls(ip)}, ret := {lean_str(r)}, pub := {lb(pb)} }}"
+        for (c, m, ps, ds, wr, ip, r, pb) in methods) + "]")
     out += ["", "def classes : List SClass := ["]
     out.append(",\n".join(
         f"  {{ name := {lean_str(n)}, module := {lean_str(mo)}, bases := {ls(bs)},\n    own := {ls(ow)},\n    attrs := {lp(at)}, extras := {ls(ex)} }}"
